@@ -169,6 +169,16 @@ def _run_point(case, ctx):
         _same(ctx, "json-parse", ref, isotherm_from_json(ref.to_json()), spec)
     except Exception as exc:
         ctx.violation("identity/json-parse-raises", "JSON export/parse raised", exc=exc, spec=spec)
+    # a conversion to relative pressure, once as such and once naming a (meaningless) unit along with it: the same isotherm
+    try:
+        ca, cb = gen.copy_point(ref), gen.copy_point(ref)
+        ca.convert_pressure(mode_to="relative")
+        cb.convert(pressure_mode="relative", pressure_unit="kPa")
+        _same(ctx, "converted-to-relative-with-and-without-a-unit", ca, cb, spec)
+        from pygaps.parsing.json import isotherm_from_json
+        _same(ctx, "converted-to-relative-with-a-unit:json-parse", cb, isotherm_from_json(cb.to_json()), spec)
+    except Exception:
+        ctx.count("skipped", "conversion to relative pressure refused")
     # the same keyword dictionary (holding a material dictionary) used twice
     if isinstance(spec["material"], dict):
         kw2 = gen._kw(spec)
@@ -499,6 +509,9 @@ def _run_process(case, ctx):
     for i in range(case["n"]):
         meta = gen.json_metadata(r)
         specs.append(gen.point_spec(r, units=gen.random_units(r) if i % 2 else None, meta=meta, extras=i % 3 == 0, material_props=gen.material_props(r) if i % 4 == 0 else None))
+        if i % 3 == 1:
+            # a text column next to the numbers (valve state, step name)
+            specs[-1]["extra"]["valve"] = [r.choice(["open", "closed", "dosing", "ünï"]) for _ in specs[-1]["pressure"]]
     here = [gen.build_point(s, "df").iso_id for s in specs]
     env = dict(os.environ)
     env["PYTHONHASHSEED"] = str(case["hashseed"])
